@@ -71,3 +71,15 @@ Proof.
   induction l as [|x r IH]; intros i; simpl; [tauto|].
   destruct (f x); simpl; [apply IH|]. split; discriminate.
 Qed.
+
+(* decimal rendering of naturals (strconv.Itoa on non-negative ints) *)
+Definition digit (n : N) : string := String (ascii_of_N (48 + n)) EmptyString.
+Fixpoint dec_fuel (fuel : nat) (n : N) (acc : string) : string :=
+  match fuel with
+  | O => acc
+  | S f => let acc' := (digit (n mod 10) ++ acc)%string in
+           if N.ltb n 10 then acc' else dec_fuel f (n / 10) acc'
+  end.
+Definition dec (n : N) : string := dec_fuel 40 n "".
+Definition dec_nat (n : nat) : string := dec (N.of_nat n).
+Definition dec_Z (z : Z) : string := if Z.ltb z 0 then ("-" ++ dec (Z.to_N (- z)))%string else dec (Z.to_N z).
